@@ -111,6 +111,17 @@ def rhs_str(system, terms, style=0, rng=None):
     return out
 
 
+def iv_dict(e, rng=None):
+    """the initial_values dictionary of an entry; for order >= 2 the keys are listed in a random order half of the time
+    (the input format does not prescribe one)"""
+    ks = list(range(e["order"]))
+    if rng is not None and e["order"] >= 2 and random.Random(rng.random()).random() < 0.5:
+        random.Random(rng.random()).shuffle(ks)
+        if ks == sorted(ks):
+            ks.reverse()
+    return {e["name"] + "'" * k: e["ivs"][k] for k in ks}
+
+
 def render(system, style=0, rng=None, options=None, parameters=None):
     """-> toolbox input dictionary"""
     dyn = []
@@ -121,7 +132,7 @@ def render(system, style=0, rng=None, options=None, parameters=None):
             if e["order"] == 1 and e.get("single_iv", True):
                 d["initial_value"] = e["ivs"][0]
             else:
-                d["initial_values"] = {e["name"] + "'" * k: e["ivs"][k] for k in range(e["order"])}
+                d["initial_values"] = iv_dict(e, rng)
         else:
             d = {"expression": "%s = %s" % (e["name"], e["fexpr"])}
         for b in ("upper_bound", "lower_bound"):
@@ -436,7 +447,7 @@ def render_spelled(system, style, rng, entry_perm=None):
             if e["order"] == 1 and e.get("single_iv", True):
                 d["initial_value"] = e["ivs"][0]
             else:
-                d["initial_values"] = {e["name"] + "'" * k: e["ivs"][k] for k in range(e["order"])}
+                d["initial_values"] = iv_dict(e, rng)
         else:
             d = {"expression": "%s = %s" % (e["name"], e["fexpr"])}
         dyn.append(d)
